@@ -1,9 +1,8 @@
 /-
-  Helper lemmas for the growth of property C18: the command-line glue (Model/VcfExt.lean), the literals the
-  translator reads off the source (Generated/VcfConsts.lean), and the composition of the reading, het-selection,
-  TumorBoost and BAF steps ("frequencies stay attached", end to end).
+  Helper lemmas for the growth of property C18: the composition of the reading, het-selection, TumorBoost and BAF
+  steps ("frequencies stay attached", end to end), one value per range.  (Command-line glue: Lemmas/VcfCli.lean;
+  literals read off the source: Lemmas/VcfLits.lean.)
 -/
-import CnvVerif.Model.VcfExt
 import CnvVerif.Lemmas.Vcf
 set_option linter.unusedSimpArgs false
 set_option linter.unusedVariables false
@@ -11,50 +10,6 @@ set_option linter.unusedTactic false
 set_option linter.unreachableTactic false
 namespace CnvVerif.Vcf
 open CnvVerif
-
-/-! ## the command line -/
-
-/-- what every command's binding looks like as long as it passes its options by name -/
-def stdBinding : Binding :=
-  { sampleId := some "args.sample_id", normalId := some "args.normal_id",
-    minVariantDepth := some "args.min_variant_depth", zygosityFreq := some "args.zygosity_freq",
-    tumorBoost := none, depthDefault := some 20, zygConst := some (1/4), zygDefaultIsNone := true,
-    idsDefaultNone := true }
-
-theorem cliBinding_std : ∀ cmd ∈ Generated.cliVcfCommands, cliBinding cmd = some stdBinding := by
-  decide +kernel
-
-theorem cliLhsArgs_of_binding (cmd : String) (a : CliVcfArgs) (h : cliBinding cmd = some stdBinding) :
-    cliLhsArgs cmd a = some (cliDocumented a) := by
-  unfold cliLhsArgs
-  rw [h]
-  obtain ⟨sid, nid, md, zf⟩ := a
-  cases md <;> rcases zf with _ | _ | f <;>
-    simp [stdBinding, parseVcfOptions, strAttr, intAttr, ratAttr, cliDocumented, bind, Option.bind, pure]
-
-theorem cliLhsArgs_documented (cmd : String) (hc : cmd ∈ Generated.cliVcfCommands) (a : CliVcfArgs) :
-    cliLhsArgs cmd a = some (cliDocumented a) :=
-  cliLhsArgs_of_binding cmd a (cliBinding_std cmd hc)
-
-/-! ## literals of the reader -/
-
-theorem rejected_eq_generated (r : Rec) :
-    rejected r = r.filt.any (fun f => !(Generated.vcfPassFilters.contains f)) := by
-  unfold rejected Generated.vcfPassFilters
-  congr 1
-  funext f
-  first
-    | rfl
-    | simp only [List.contains_cons, List.contains_nil, Bool.or_false, Bool.or_assoc]
-    | (simp [List.contains_cons, Bool.or_assoc]; try rfl)
-
-theorem effectiveZygFreq_fallback (o : HetOpts) (tb : VTable) (hz : o.zygFreq = none)
-    (hp : tb.paired = true) (hn : normalUntyped tb.rows = true) :
-    effectiveZygFreq o tb = some (Generated.lhsFallbackZygFreq, 1 - Generated.lhsFallbackZygFreq) := by
-  unfold effectiveZygFreq
-  rw [hz]
-  simp only [hp, hn, Bool.and_self, if_true]
-  decide +kernel
 
 /-! ## frequencies stay attached: read → retype → T/N-somatic drop → heterozygous → TumorBoost -/
 
